@@ -18,7 +18,11 @@ func (vc *VC) idx64(v *Val) string {
 		panic("index is not an integer")
 	}
 	if vc.intMode {
-		panic("index arithmetic in int mode must go through idx64Int")
+		if n, ok := intLitBig(v.C[0]); ok {
+			return bvLit(64, n)
+		}
+		t := app("(_ int2bv 64)", v.C[0])
+		return t
 	}
 	t := bvConv(v.C[0], v.W, v.Signed, 64)
 	if _, _, lit := asLit(t); !lit {
